@@ -23,6 +23,9 @@ S_CELLS = [
     ("o_item", "lambda: Pref[1].h(2)", True),
     ("o_item_child", "lambda: Pref(2).PC.pc()", True),
     ("o_us", "lambda: USref.uu() + USref.uc() + 1", True),
+    ("o_us2", "lambda: USref.uu() + 2", True),          # through the uncached cells of the other space ONLY
+    ("o_usw", "lambda: USref.w + 3", True),             # a reference of the other space, read by attribute
+    ("o_dref", "lambda: DDref.dv + 1", True),           # a DERIVED reference of another space, read by attribute
 ]
 OBSERVERS = [n for n, _, _ in S_CELLS if n.startswith("o_")]
 VALUES = ["g", "h", "bx", "x", "y", "sh", "z", "k"]
@@ -62,9 +65,13 @@ class Rich:
             S.x, S.y, S.hh = vals["x"], vals["y"], vals["sh"]
             S.Pref = P
             US = self.US = m.new_space("US")                              # another space, reached through a reference: uncached + cached cells
-            US.new_cells("uu", formula="lambda: 5", is_cached=False)
+            US.w = 5
+            US.new_cells("uu", formula="lambda: w", is_cached=flags is not None and bool(flags.get("uu", False)))   # reads a reference of ITS space by name
             US.new_cells("uc", formula="lambda: 7")
             S.USref = US
+            DA, DB = m.new_space("DA"), m.new_space("DB")                 # two bases defining the same reference
+            DA.dv, DB.dv = 1, 2
+            S.DDref = self.DD = m.new_space("DD", bases=[DA, DB])
             Sub = self.Sub = S.new_space("Sub")
             Sub.z = vals["z"]
             Sub.new_cells("sc", formula="lambda: z + 1")
@@ -152,6 +159,9 @@ EDITS = [
     ("Sub.sc.formula changed", lambda r, v: setattr(_sub(r).cells["sc"], "formula", "lambda: z + 3")),         # 33
     ("m.hh = v (shadowed in S)", lambda r, v: setattr(r.m, "hh", v)),                      # 34
     ("S.allow_none = True", lambda r, v: setattr(_S(r), "allow_none", True)),            # 35
+    ("US.w = v (read by name by an uncached cells another space calls)", lambda r, v: setattr(r.m.US, "w", v)),   # 36
+    ("del DA.dv (DD.dv now derives from DB)", lambda r, v: delattr(r.m.DA, "dv")),                          # 37
+    ("DD.remove_bases(DA)", lambda r, v: r.m.DD.remove_bases(r.m.DA)),                                        # 38
 ]
 CRITICAL = [0, 1, 2, 3, 7, 12, 13, 14, 24, 29, 5, 23]
 
